@@ -1,3 +1,4 @@
+import FluentProofs.ConstTieNum
 import FluentProofs.NumRules
 import FluentProofs.NumMerge
 /-!
